@@ -13,7 +13,7 @@ package jet
 // ---- parser state ---------------------------------------------------------------------------------
 //@ modset Parse := t.token, t.peekCount, t.lex.lastPos, map t.passedBlocks, ghost CM, ghost NL
 
-//@ pred TokOK(it item) := it.typ == itemField ==> len(it.val) >= 2 && it.val[0] == '.'
+//@ pred TokOK(it item) := (it.typ == itemField ==> len(it.val) >= 2 && it.val[0] == '.') && (it.typ == itemCharConstant ==> len(it.val) >= 1)
 //@ pred PInv(t *Template) := t != nil && t.lex != nil && forall(k, 0, 3, TokOK(t.token[k])) && 0 <= t.peekCount && t.peekCount <= 3 && 0 <= t.lex.lastPos && t.lex.lastPos <= len(t.lex.input) && t.set != nil && SetOK(t.set) && Canon(t.Name) && t.passedBlocks != nil
 
 //@ func (*lexer).nextItem
@@ -252,8 +252,7 @@ package jet
 
 //@ func (*Template).newNumber
 //@   props C02 C04 C12
-//@   nocrash
-//@   requires t != nil && t.lex != nil && 0 <= t.lex.lastPos && t.lex.lastPos <= len(t.lex.input)
+//@   requires t != nil && t.lex != nil && 0 <= t.lex.lastPos && t.lex.lastPos <= len(t.lex.input) && (typ == itemCharConstant ==> len(text) >= 1)
 //@   loop 0 invariant true
 //@   ensures result1 == nil ==> result0 != nil && fresh(result0) && result0.NodeType == NodeNumber && result0.NodeBase.Line >= 1
 //@   ensures [every-accepted-numeric-literal-is-a-float] {C04} result1 == nil && typ == itemNumber ==> result0.IsFloat || result0.IsComplex
